@@ -66,6 +66,7 @@ type k2Result struct {
 	GenCompared int
 	// converters whose whole plan passes PlanCheck.checkProg (the hypothesis of the composite theorem of C02)
 	InFragment, FragmentAsked int
+	InFragmentU, PathsOK      int // plans passing PlanCheck.checkProgU / PathCheck.pathsOK (same denominator)
 	// failing calls on which implementation and model chose different entries of a map (Go's iteration order is unspecified):
 	// resolved by re-running the model on the other iteration orders
 	MapOrderResolved, MapOrderTried int
@@ -317,8 +318,16 @@ func runK2(e *env, name string, batches []*k2Batch) (*k2Result, error) {
 					if rnode.Head() == "fragment" {
 						mu.Lock()
 						res.FragmentAsked++
-						if len(rnode.L) == 2 && rnode.L[1].S == "true" {
+						if len(rnode.L) >= 2 && rnode.L[1].S == "true" {
 							res.InFragment++
+						}
+						if len(rnode.L) >= 4 {
+							if rnode.L[2].S == "true" {
+								res.InFragmentU++
+							}
+							if rnode.L[3].S == "true" {
+								res.PathsOK++
+							}
 						}
 						mu.Unlock()
 						continue
